@@ -48,6 +48,11 @@ static void check_nonneg(const char *where)
     abtmc_check(b2 >= 0, "negative_blocked", "%s: Q2 blocked count %d", where, b2);
 }
 
+static void inv_nonneg(void)
+{
+    check_nonneg("global invariant, state after a write");
+}
+
 static void t_fn(void *arg)
 {
     (void)arg;
@@ -108,6 +113,7 @@ static void scenario(int cfg)
         OK(ABT_thread_create(Q2, w_fn, NULL, ABT_THREAD_ATTR_NULL, &W));
     OK(ABT_thread_create(Q1, a_fn, NULL, ABT_THREAD_ATTR_NULL, &A));
 
+    abtmc_set_invariant(inv_nonneg);
     abtmc_window_begin();
     OK(ABT_xstream_create(s1, &es1));
     OK(ABT_xstream_create(s2, &es2));
